@@ -832,6 +832,10 @@ func (s *State) step(instr ssa.Instruction) {
 		bv := s.valOf(x.X)
 		if bi, named, isPtr := c.eng.boxInvFor(bv.T); bi != nil && bv.S != "" {
 			if t, ok := s.boxInvTerm(bi, named, isPtr, bv); ok {
+				if isPtr {
+					// a nil pointer carries no object the invariant could speak about
+					t = implies(not(eq(bv.S, "0")), t)
+				}
 				s.oblige("boxinv:"+bi.Type, x, c.ordinal(x, "boxinv"), t, bi.Pred+" must hold when a "+bi.Type+" is handed out as an interface value", true)
 			}
 		}
